@@ -82,7 +82,7 @@ def arm_fragments(body):
     i = 0
     n = len(body)
     pat = re.compile(r"parse_quote!\s*([({])")
-    cond = re.compile(r"is_top_level\(\)|is_bounded\(\)|cross_tick_state_lifetime|tick_state_lifetime")
+    cond = re.compile(r"is_top_level\(\)|is_bounded\(\)|cross_tick_state_lifetime|tick_state_lifetime|first_tick_only")
     # collect (position, text)
     items = []
     for m in pat.finditer(body):
@@ -176,11 +176,67 @@ def extract(repo):
     return lifetimes, prod_tab, arms
 
 
+# hydro_lang LIBRARY code the tick-cycle part of the model (Model/Tick.lean: optCycleWithInitial, singCycleWithInitial,
+# filterIf, isSome, intoSingleton, `cyc`) is transcribed from: (table key, file, regex the search starts at, fn name)
+LIBRARY = [
+    ("Optional::create_source_with_initial<TickCycle>", "hydro_lang/src/live_collections/optional.rs",
+     r"CycleCollectionWithInitial<'a, TickCycle> for Optional", "create_source_with_initial"),
+    ("Singleton::create_source_with_initial<TickCycle>", "hydro_lang/src/live_collections/singleton.rs",
+     r"CycleCollectionWithInitial<'a, TickCycle> for Singleton", "create_source_with_initial"),
+    ("Optional::filter_if", "hydro_lang/src/live_collections/optional.rs", r"", "filter_if"),
+    ("Optional::is_some", "hydro_lang/src/live_collections/optional.rs", r"", "is_some"),
+    ("Optional::into_singleton", "hydro_lang/src/live_collections/optional.rs", r"", "into_singleton"),
+    ("Optional::zip_inside_tick", "hydro_lang/src/live_collections/optional.rs", r"", "zip_inside_tick"),
+    ("Optional::or_inside_tick", "hydro_lang/src/live_collections/optional.rs", r"", "or_inside_tick"),
+    ("Tick::cycle", "hydro_lang/src/location/tick.rs", r"", "cycle"),
+    ("Tick::cycle_with_initial", "hydro_lang/src/location/tick.rs", r"", "cycle_with_initial"),
+    ("Tick::optional_first_tick", "hydro_lang/src/location/tick.rs", r"", "optional_first_tick"),
+]
+
+
+def extract_library(repo):
+    """normalised bodies of the library functions above"""
+    out = {}
+    for key, rel, start_re, fn in LIBRARY:
+        src = open(os.path.join(repo, rel)).read()
+        # drop the test module
+        cut = src.find("#[cfg(test)]\nmod tests")
+        if cut >= 0:
+            src = src[:cut]
+        base = 0
+        if start_re:
+            ms = list(re.finditer(start_re, src))
+            if len(ms) != 1:
+                raise ParseError(f"{key}: expected exactly one `{start_re}` in {rel}, found {len(ms)}")
+            base = ms[0].end()
+        ms = list(re.finditer(r"\bfn\s+" + fn + r"\b\s*(<|\()", src[base:]))
+        if not ms or (not start_re and len(ms) != 1):
+            raise ParseError(f"{key}: expected exactly one `fn {fn}` in {rel}, found {len(ms)}")
+        k = base + ms[0].start()
+        # the body: first `{` after the signature's parameter list and where clause
+        par = src.index("(", k)
+        sig_end = find_matching(src, par, "(", ")")
+        o = sig_end
+        depth = 0
+        while True:       # skip generics / where clauses up to the body brace (angle brackets may contain braces only in bodies)
+            c = src[o]
+            if c == "{" and depth == 0:
+                break
+            if c == "(":
+                o = find_matching(src, o, "(", ")")
+                continue
+            o += 1
+        e = find_matching(src, o, "{", "}")
+        body = re.sub(r"///[^\n]*", "", src[o + 1:e - 1])
+        out[key] = norm(body)
+    return out
+
+
 def lean_str(s):
     return '"' + s.replace("\\", "\\\\").replace('"', '\\"') + '"'
 
 
-def render(lifetimes, prod_tab, arms):
+def render(lifetimes, prod_tab, arms, library):
     out = ["/-",
            "GENERATED by harness/hv_hydro/translate_lowering.py from hydro_lang/src/compile/ir/mod.rs — do not edit.",
            "Which DFIR statements / operators / persistence lifetimes `emit_core` emits per `HydroNode` variant.",
@@ -196,6 +252,10 @@ def render(lifetimes, prod_tab, arms):
     out += ["]", "", "def lowering : List (String × String) := ["]
     out += ["  (" + lean_str(k) + ", " + lean_str(arms[k]) + ")," for k in VARIANTS]
     out[-1] = out[-1].rstrip(",")
+    out += ["]", "", "/-- library code of hydro_lang (not emit_core) the tick-cycle model is transcribed from -/",
+            "def library : List (String × String) := ["]
+    out += ["  (" + lean_str(k) + ", " + lean_str(library[k]) + ")," for k, _, _, _ in LIBRARY]
+    out[-1] = out[-1].rstrip(",")
     out += ["]", "", "end HvHydro.Gen", ""]
     return "\n".join(out)
 
@@ -205,15 +265,17 @@ def translate(repo, verif):
     target = os.path.join(verif, "lean", "HvHydro", "HvHydro", "Gen", "Lowering.lean")
     try:
         lifetimes, prod_tab, arms = extract(repo)
-    except (ParseError, OSError, ValueError) as ex:
+        library = extract_library(repo)
+    except (ParseError, OSError, ValueError, IndexError) as ex:
         return [("emit_core lowering table (compile/ir/mod.rs)", False, f"cannot parse: {ex}")]
-    text = render(lifetimes, prod_tab, arms)
+    text = render(lifetimes, prod_tab, arms, library)
     os.makedirs(os.path.dirname(target), exist_ok=True)
     if not os.path.exists(target) or open(target).read() != text:
         with open(target, "w") as f:
             f.write(text)
     return [("emit_core lowering table (compile/ir/mod.rs)", True,
-             f"{len(arms)} HydroNode arms, {len(prod_tab)} ProdDfirBuilder methods, 2 lifetime functions extracted")]
+             f"{len(arms)} HydroNode arms, {len(prod_tab)} ProdDfirBuilder methods, 2 lifetime functions, "
+             f"{len(library)} library functions (tick cycles) extracted")]
 
 
 if __name__ == "__main__":
